@@ -210,6 +210,11 @@ CONTRACTS = [records, dedup, levels_block]
 BOUNDED = {"module": "harness.c03"}
 
 MUTANTS = [
+    {"name": "seen-test-against-the-psm-level-set", "target": "mokapot.confidence.assign_confidence#dedup",
+     "find": "if psm_hash in seen_level_entities[level]:", "replace": "if psm_hash in seen_level_entities[\"psms\"]:"},
+    {"name": "final-flush-skipped", "target": "mokapot.confidence.assign_confidence#dedup",
+     "find": "                handles[level].append_data(df)\n\n            for level in levels:",
+     "replace": "                pass\n\n            for level in levels:"},
     {"name": "seen-test-inverted", "target": "mokapot.confidence.assign_confidence#dedup",
      "find": "if psm_hash in seen_level_entities[level]:", "replace": "if psm_hash not in seen_level_entities[level]:"},
     {"name": "key-never-recorded", "target": "mokapot.confidence.assign_confidence#dedup",
